@@ -114,6 +114,12 @@ func (rt *runtimeS) setupTopo() {
 // belongs to from the source of the first envelope.
 func (rt *runtimeS) serveLogical(rw goat.RpcReadWriter) {
 	t := &lazyTap{inner: rw}
+	rt.objMu.Lock()
+	if rt.tapByG == nil {
+		rt.tapByG = map[int64]*lazyTap{}
+	}
+	rt.tapByG[curGID()] = t
+	rt.objMu.Unlock()
 	ctx := context.WithValue(rt.root, connKey{}, 0)
 	_ = rt.srv.Serve(context.WithValue(ctx, lazyKey{}, t), t)
 }
@@ -126,6 +132,12 @@ type lazyTap struct {
 	mu     sync.Mutex
 	conn   int
 	nW, nR int
+}
+
+func (t *lazyTap) connIdx() int {
+	t.mu.Lock()
+	defer t.mu.Unlock()
+	return t.conn
 }
 
 func (t *lazyTap) Read(ctx context.Context) (*goat.Rpc, error) {
